@@ -951,3 +951,133 @@ class C13(FaultMonitorMixin, BaseMonitor):
 
 
 MONITORS["C13"] = C13
+
+
+# ---------------------------------------------------------------------------------------------------
+# C18
+
+READ_KINDS = ["explain", "str", "to_json", "sums", "plot_system", "plot_diffs", "plot_values", "calculus_graph",
+              "object_graph"]
+
+
+class C18(FaultMonitorMixin, BaseMonitor):
+    """A computed model is a fixed point, and computing / reading never alters inputs."""
+    prop = "C18"
+
+    @staticmethod
+    def spec_generator(k, cfg, index):
+        if index % 2 == 0:
+            cfg["builders"] = True
+        return gen.gen_spec(k, cfg)
+
+    def next_op(self, i):
+        """Phase 1: edits interleaved with read-side requests.  Phase 2 (the tail of the run): explicit
+        recomputation requests and reads only - 'for all systems after any edit history, for every subset/order of
+        explicit recomputation requests'.  (Edits *after* explicit requests are not generated: see DESIGN 3.C18.)"""
+        r = self.k.rng("op", i)
+        spec = self.sim.spec
+        inside = S.closure(spec)
+        n_ops = self.opts.get("n_ops_hint", 10)
+        if not self.tail and (i >= n_ops - 1 - self.k.randint(2, max(2, n_ops // 2), "tail-length")):
+            self.tail = True
+        x = r.random()
+        if self.tail and x < 0.65:
+            mode = r.choice(["random", "random", "canonical", "reverse", "repeat", "system", "single"])
+            objs = [n for n in inside if n != "sys"]
+            if mode == "system" or not objs:
+                targets = ["sys!"] * r.choice([1, 2])
+            elif mode == "single":
+                targets = [r.choice(objs)]
+            else:
+                sub = [n for n in objs if r.random() < 0.6] or objs[:1]
+                if mode == "random":
+                    r.shuffle(sub)
+                elif mode == "reverse":
+                    sub = list(reversed(sub))
+                elif mode == "repeat":
+                    sub = sub + [r.choice(sub) for _ in range(3)]
+                    r.shuffle(sub)
+                targets = sub
+                if r.random() < 0.3:
+                    targets = targets + ["sys"]
+            return {"op": "recompute", "targets": targets, "mode": mode, "fault": "F5", "i": i}
+        if self.tail or x < 0.3:
+            kind = r.choice(READ_KINDS)
+            objs = [n for n in inside]
+            targets = [r.choice(objs) for _ in range(r.choice([1, 2, 4]))]
+            return {"op": "read", "kind": kind, "targets": targets, "with_calc": r.random() < 0.7,
+                    "cumsum": r.random() < 0.5, "fault": "F6", "i": i}
+        return opgen.gen_edit(r, spec, self.cfg, i)
+
+    def on_start(self):
+        self.clean = True
+        self.tail = False
+
+    def snapshots(self):
+        inside = S.closure(self.sim.spec)
+        return (C.calc_snapshot(self.sim.world, inside), C.input_snapshot(self.sim.world, self.sim.spec, inside))
+
+    def step(self, i, op):
+        sim = self.sim
+        if op["op"] not in ("recompute", "read"):
+            status, ret = self.execute(op)
+            if status == "raised":
+                self.res.count("ended_on_raise:" + type(ret).__name__)
+                self.stop = "op_raised"
+                return "raised"
+            if status == "hang":
+                self.stop = "hang_in_plain_edit"
+                return "hang"
+            return status
+        # attribution: requests are judged only on a model that agrees with the rebuilt reference
+        try:
+            ref = reference_world(sim)
+        except Exception as e:
+            self.res.count("left_envelope:" + type(e).__name__)
+            self.stop = "left_envelope"
+            return "skip"
+        inside = S.closure(sim.spec)
+        if C.diff_snapshots(C.calc_snapshot(sim.world, inside), C.calc_snapshot(ref, inside), self.cls_of):
+            self.res.count("inconclusive_engine_defect")
+            self.stop = "inconclusive_engine_defect"
+            return "skip"
+        calc0, in0 = self.snapshots()
+        if op["op"] == "read":
+            status, ret = self.execute(op)
+            self.res.count("fault:read_" + op["kind"])
+            if status == "skip":
+                return "skip"
+            if status == "hang":
+                raise Violation("C18", "hang", {ret.site}, f"{op['kind']} does not return in {ret.site}", i, op_kind(op))
+            if status == "raised":
+                # a read that raises is a robustness problem outside the statement; what it did before raising is judged
+                self.res.count(f"read_raised:{op['kind']}:{type(ret).__name__}")
+            self.compare(i, op, calc0, in0, f"read:{op['kind']}")
+            return "ok" if status == "ok" else "raised"
+        # recompute requests one by one, so that a change is pinned to the request that exposed it
+        for n_, t in enumerate(op["targets"]):
+            single = {"op": "recompute", "targets": [t]}
+            status, ret = self.execute(single)
+            self.res.count("fault:recompute_request")
+            if status == "skip":
+                continue
+            if status == "hang":
+                raise Violation("C18", "hang", {ret.site}, f"recomputing {t} does not return in {ret.site}", i, op_kind(op))
+            if status == "raised":
+                self.res.count(f"recompute_raised:{type(ret).__name__}")
+            self.compare(i, op, calc0, in0, f"recompute request #{n_} ({t})")
+        return "ok"
+
+    def compare(self, i, op, calc0, in0, what):
+        calc1, in1 = self.snapshots()
+        d_in = C.diff_snapshots(in0, in1, self.cls_of)
+        if d_in:
+            raise Violation("C18", "input_changed", self.where_of(d_in), f"after {what}: " + self.fmt(d_in), i, op_kind(op))
+        d = C.diff_snapshots(calc0, calc1, self.cls_of)
+        self.res.count("values_compared", len(calc1))
+        if d:
+            raise Violation("C18", "not_a_fixed_point" if op["op"] == "recompute" else "calculated_value_changed_by_read",
+                            self.where_of(d), f"after {what}: " + self.fmt(d), i, op_kind(op))
+
+
+MONITORS["C18"] = C18
